@@ -7,7 +7,7 @@ from ..model import AnalysisError, Program
 from ..report import Run
 from ..skel import (BUILDER_CLASSES, cond_mentions, count_marker, field_class, recv_path, render, root_attr, kind_states,
                     term_classes)
-from ..symex import Alt, Const, CtxV, Hole, Inh, Lit, SlotP, Str, Sym, show, walk_parts
+from ..symex import Alt, Const, CtxV, Hole, Inh, Lit, Phi, SlotP, Str, Sym, show, walk_parts
 
 MARK = "@ALIAS@"
 # operand receivers that cannot carry an alias (one reason each)
@@ -377,7 +377,28 @@ def check(program: Program, run: Run) -> None:
                                 if "_selects" in src_ and ".alias" in src_:
                                     return True
                     return False
-                guarded = cond_mentions(conds, lambda x: isinstance(x, Sym) and x.kind == "op" and x.args[0] == "in" and _alias_source(x.args[2]))
+                def _implies_member(x, pos=True, d=0) -> bool:
+                    """does the path condition x (taken with polarity pos) imply `<alias> in <aliases of the select list>`?
+                    (`not (not alias or alias not in selected)` does, by De Morgan)"""
+                    if d > 12:
+                        return False
+                    if isinstance(x, Phi):
+                        # a conditional value is truthy (falsy) through one of its arms: every arm that can be must imply it
+                        arms = [a for a in (x.a, x.b) if not (isinstance(a, Const) and bool(a.value) != pos)]
+                        return bool(arms) and all(_implies_member(a, pos, d + 1) for a in arms)
+                    if not (isinstance(x, Sym) and x.kind == "op"):
+                        return False
+                    op = x.args[0]
+                    if op in ("in", "not in") and len(x.args) == 3 and _alias_source(x.args[2]):
+                        return pos == (op == "in")
+                    if op == "not":
+                        return _implies_member(x.args[1], not pos, d + 1)
+                    if op in ("and", "or"):
+                        conjunctive = (op == "and") == pos
+                        rs = [_implies_member(a, pos, d + 1) for a in x.args[1:]]
+                        return any(rs) if conjunctive else bool(rs) and all(rs)
+                    return False
+                guarded = any(_implies_member(x) for x in conds)
                 run.ob("C12/R4 alias reference guarded by membership in the select list's aliases", fq, guarded,
                        detail="; ".join(show(x) for x in conds)[:200])
                 if not guarded:
